@@ -20,6 +20,14 @@ mkdir -p "$HERE/harness/target"
   cargo build --profile verif >"$LOG" 2>&1
 ) 9>"$HERE/harness/target/.build.lock"
 rc=$?
+if [ $rc -eq 0 ] && [ "$ID" = C19 ]; then
+  # C19 drives the real command line tool: build it from /repo's working tree too (no hook needed)
+  (
+    flock 9
+    cd /repo && cargo build -p gamedig_cli --offline --target-dir "$HERE/harness/target/cli" >"$LOG" 2>&1
+  ) 9>"$HERE/harness/target/.cli.lock"
+  rc=$?
+fi
 if [ $rc -ne 0 ]; then
   echo "INCONCLUSIVE property=$ID harness build failed (does /repo still compile?)"
   grep -E "^(error|warning: unused)" -A6 "$LOG" | head -60
